@@ -1,24 +1,35 @@
 ------------------------------ MODULE CmapMutex ------------------------------
 (* Implementation-shaped model of concurrency/cmap/mutex.go.                   *)
 (*   items: key -> mutex OBJECT (0 = absent).  An object has identity and its  *)
-(*   own RWMutex state (w: write-locked, r: number of read locks); an object   *)
-(*   that was removed from the map lives on for whoever still refers to it.    *)
-(*   Lock/RLock:  Look   - look the object up under the map's READ lock;       *)
-(*                          the result can be stale by the time it is used     *)
-(*                Create - not found: under the map's write lock look again,   *)
-(*                          create if still absent (double-checked creation)   *)
-(*                Acq    - mutex.Lock()/RLock() on the object in hand, outside *)
-(*                          the map lock (gates cmap.*.lookedUp / .created sit *)
-(*                          before it)                                         *)
+(*   own sync.RWMutex state: wm = the goroutine that owns the RWMutex's inner  *)
+(*   writer mutex (a writer that holds the lock, or the first pending writer:  *)
+(*   it has announced itself, new readers wait, TryLock fails), w = write-     *)
+(*   locked, r = number of read locks.  An object that was removed from the    *)
+(*   map lives on for whoever still refers to it.                              *)
+(*   Lock/RLock(key) = for { m := get(key); m.Lock()/RLock();                  *)
+(*                           if current(key, m) { return }; m.Unlock()/RUnlock() } *)
+(*     get:     Look   - look the object up under the map's READ lock          *)
+(*                        (hook cmap.(r)lock.lookedUp{found} right after it)   *)
+(*              Create - not found: under the map's write lock look again and  *)
+(*                        create if still absent (hook cmap.(r)lock.created)   *)
+(*     m.Lock:  WEnter - take the inner writer mutex and announce (silent)     *)
+(*              WAcq   - the readers have drained: write-locked (silent)       *)
+(*     m.RLock: RAcq   - no writer holds or is pending (silent)                *)
+(*     Check    current(): still the object the key maps to?  else release it  *)
+(*              and start over (silent)                                        *)
 (*   Unlock/RUnlock look the object up AGAIN (map read lock) and unlock what   *)
-(*   they find; nothing if absent.  DeleteUnlock/DeleteRUnlock do the same     *)
-(*   under the map's write lock and remove the entry.  Delete only removes.    *)
-(*   Unlocking an RWMutex that is not locked is a fatal runtime error.         *)
-(* The critical sections of the map's own lock never block: one step each.     *)
-(* Revalidate = TRUE models the repair "after acquiring, check under the map   *)
-(* read lock that the key still maps to the object in hand, else release it    *)
-(* and start over"; FALSE is the code as it is.  SafeDelR = TRUE models the    *)
-(* companion repair of DeleteRUnlock (delete only when TryLock succeeds).      *)
+(*   they find; nothing if absent.  DeleteUnlock does the same under the map's *)
+(*   write lock and removes the entry.  DeleteRUnlock read-unlocks and removes *)
+(*   the entry only if TryLock succeeds (nobody holds or waits as a writer).   *)
+(*   Delete only removes.  Unlocking an RWMutex that is not locked is a fatal  *)
+(*   runtime error.  The critical sections of the map's own lock never block:  *)
+(*   one step each.                                                            *)
+(* Repaired = TRUE is the code as it is now.  Repaired = FALSE is the code AS  *)
+(* FOUND (defect variants F-C13-1): no current() check after acquiring, and    *)
+(* DeleteRUnlock removes the entry unconditionally.                            *)
+(* The client program is not baked in: Call takes key and mode, Exit takes the *)
+(* release call (chosen from the constant sets when model checking, from the   *)
+(* recorded call events when validating traces).                               *)
 EXTENDS LockContract
 
 CONSTANTS NG, Keys, Rounds,
@@ -26,31 +37,31 @@ CONSTANTS NG, Keys, Rounds,
           WRels,       \* how writers release: subset of {"unlock", "deleteunlock"}
           RRels,       \* how readers release: subset of {"runlock", "deleterunlock"}
           PlainDelete, \* TRUE: a Delete(key) may be issued at any time by a bystander
-          Revalidate,
-          SafeDelR     \* TRUE models the repair of DeleteRUnlock: remove the entry only if TryLock succeeds (nobody else uses the mutex)
+          Repaired
 G == 1..NG
 Objs == 1..(NG * Rounds)
 
-VARIABLES items, nextObj, w, r, pc, key, mode, rel, my, left, crashed, c
-vars == <<items, nextObj, w, r, pc, key, mode, rel, my, left, crashed, c>>
+VARIABLES items, nextObj, wm, w, r, pc, key, mode, rel, my, left, crashed, c
+vars == <<items, nextObj, wm, w, r, pc, key, mode, rel, my, left, crashed, c>>
 
 Ev(n, g) == [ev |-> n, g |-> g]
-Init == /\ items = [k \in Keys |-> 0] /\ nextObj = 1 /\ w = [o \in Objs |-> FALSE] /\ r = [o \in Objs |-> 0]
+Init == /\ items = [k \in Keys |-> 0] /\ nextObj = 1
+        /\ wm = [o \in Objs |-> 0] /\ w = [o \in Objs |-> FALSE] /\ r = [o \in Objs |-> 0]
         /\ pc = [g \in G |-> "idle"] /\ key = [g \in G |-> 0] /\ mode = [g \in G |-> "w"] /\ rel = [g \in G |-> "unlock"]
         /\ my = [g \in G |-> 0] /\ left = [g \in G |-> Rounds] /\ crashed = FALSE
         /\ c = CReset([prim |-> "cmap", graceful |-> 0])
 
-Call(g, k, m, rl) ==
+Call(g, k, m) ==
    /\ pc[g] = "idle" /\ left[g] > 0
-   /\ pc' = [pc EXCEPT ![g] = "call"] /\ key' = [key EXCEPT ![g] = k] /\ mode' = [mode EXCEPT ![g] = m] /\ rel' = [rel EXCEPT ![g] = rl]
+   /\ pc' = [pc EXCEPT ![g] = "call"] /\ key' = [key EXCEPT ![g] = k] /\ mode' = [mode EXCEPT ![g] = m]
    /\ c' = CNext(c, [ev |-> "acq_call", g |-> g, key |-> k, mode |-> m, pre |-> FALSE])
-   /\ UNCHANGED <<items, nextObj, w, r, my, left, crashed>>
-(* mutex.go:58-60 / 85-87 *)
+   /\ UNCHANGED <<items, nextObj, wm, w, r, rel, my, left, crashed>>
+(* get(), mutex.go:59-62 *)
 Look(g) == /\ pc[g] = "call"
            /\ IF items[key[g]] # 0 THEN my' = [my EXCEPT ![g] = items[key[g]]] /\ pc' = [pc EXCEPT ![g] = "have"]
                                    ELSE pc' = [pc EXCEPT ![g] = "create"] /\ UNCHANGED my
-           /\ UNCHANGED <<items, nextObj, w, r, key, mode, rel, left, crashed, c>>
-(* mutex.go:67-73 / 95-101 *)
+           /\ UNCHANGED <<items, nextObj, wm, w, r, key, mode, rel, left, crashed, c>>
+(* get(), mutex.go:67-74 *)
 Create(g) == /\ pc[g] = "create"
              /\ LET k == key[g]
                     fresh == items[k] = 0
@@ -58,61 +69,77 @@ Create(g) == /\ pc[g] = "create"
                 IN /\ items' = [items EXCEPT ![k] = o] /\ nextObj' = IF fresh THEN nextObj + 1 ELSE nextObj
                    /\ my' = [my EXCEPT ![g] = o]
              /\ pc' = [pc EXCEPT ![g] = "have"]
-             /\ UNCHANGED <<w, r, key, mode, rel, left, crashed, c>>
-CanAcq(g) == IF mode[g] = "w" THEN ~w[my[g]] /\ r[my[g]] = 0 ELSE ~w[my[g]]
-Acq(g) == /\ pc[g] = "have" /\ CanAcq(g)
-          /\ IF mode[g] = "w" THEN w' = [w EXCEPT ![my[g]] = TRUE] /\ UNCHANGED r
-                              ELSE r' = [r EXCEPT ![my[g]] = @ + 1] /\ UNCHANGED w
-          /\ pc' = [pc EXCEPT ![g] = IF Revalidate THEN "check" ELSE "ret"]
-          /\ UNCHANGED <<items, nextObj, key, mode, rel, my, left, crashed, c>>
+             /\ UNCHANGED <<wm, w, r, key, mode, rel, left, crashed, c>>
+Acquired(g) == IF Repaired THEN "check" ELSE "ret"
+(* sync.RWMutex.Lock: rw.w.Lock(); announce; wait for the readers *)
+WEnter(g) == /\ pc[g] = "have" /\ mode[g] = "w" /\ wm[my[g]] = 0
+             /\ wm' = [wm EXCEPT ![my[g]] = g] /\ pc' = [pc EXCEPT ![g] = "wwait"]
+             /\ UNCHANGED <<items, nextObj, w, r, key, mode, rel, my, left, crashed, c>>
+WAcq(g) == /\ pc[g] = "wwait" /\ r[my[g]] = 0
+           /\ w' = [w EXCEPT ![my[g]] = TRUE] /\ pc' = [pc EXCEPT ![g] = Acquired(g)]
+           /\ UNCHANGED <<items, nextObj, wm, r, key, mode, rel, my, left, crashed, c>>
+(* sync.RWMutex.RLock *)
+RAcq(g) == /\ pc[g] = "have" /\ mode[g] = "r" /\ wm[my[g]] = 0
+           /\ r' = [r EXCEPT ![my[g]] = @ + 1] /\ pc' = [pc EXCEPT ![g] = Acquired(g)]
+           /\ UNCHANGED <<items, nextObj, wm, w, key, mode, rel, my, left, crashed, c>>
+(* Lock/RLock, mutex.go:88-99 / 113-122: current(), else release and start over *)
 Check(g) == /\ pc[g] = "check"
-            /\ IF items[key[g]] = my[g] THEN pc' = [pc EXCEPT ![g] = "ret"] /\ UNCHANGED <<w, r>>
+            /\ IF items[key[g]] = my[g] THEN pc' = [pc EXCEPT ![g] = "ret"] /\ UNCHANGED <<wm, w, r>>
                ELSE /\ pc' = [pc EXCEPT ![g] = "call"]
-                    /\ IF mode[g] = "w" THEN w' = [w EXCEPT ![my[g]] = FALSE] /\ UNCHANGED r
-                                        ELSE r' = [r EXCEPT ![my[g]] = @ - 1] /\ UNCHANGED w
+                    /\ IF mode[g] = "w" THEN w' = [w EXCEPT ![my[g]] = FALSE] /\ wm' = [wm EXCEPT ![my[g]] = 0] /\ UNCHANGED r
+                                        ELSE r' = [r EXCEPT ![my[g]] = @ - 1] /\ UNCHANGED <<w, wm>>
             /\ UNCHANGED <<items, nextObj, key, mode, rel, my, left, crashed, c>>
 Ret(g) == /\ pc[g] = "ret" /\ pc' = [pc EXCEPT ![g] = "in"]
           /\ c' = CNext2(c, [ev |-> "acq_ret", g |-> g, ok |-> TRUE], Ev("enter", g))
-          /\ UNCHANGED <<items, nextObj, w, r, key, mode, rel, my, left, crashed>>
-Exit(g) == /\ pc[g] = "in" /\ pc' = [pc EXCEPT ![g] = "unl"]
-           /\ c' = CNext2(c, Ev("exit", g), [ev |-> "rel_call", g |-> g, how |-> rel[g]])
-           /\ UNCHANGED <<items, nextObj, w, r, key, mode, rel, my, left, crashed>>
-(* mutex.go:77-83, 106-112, 120-138: look up again, unlock what is found, (delete) *)
+          /\ UNCHANGED <<items, nextObj, wm, w, r, key, mode, rel, my, left, crashed>>
+Exit(g, rl) == /\ pc[g] = "in" /\ pc' = [pc EXCEPT ![g] = "unl"] /\ rel' = [rel EXCEPT ![g] = rl]
+               /\ c' = CNext2(c, Ev("exit", g), [ev |-> "rel_call", g |-> g, how |-> rl])
+               /\ UNCHANGED <<items, nextObj, wm, w, r, key, mode, my, left, crashed>>
+(* Unlock, RUnlock, DeleteUnlock, DeleteRUnlock: look up again, unlock what is found, (delete) *)
 Rel(g) == /\ pc[g] = "unl"
           /\ LET k == key[g]
                  o == items[k]
                  wr == rel[g] \in {"unlock", "deleteunlock"}
                  fatal == o # 0 /\ (IF wr THEN ~w[o] ELSE r[o] = 0)
+                 tryLock == o # 0 /\ wm[o] = 0 /\ r[o] = 1            \* after the RUnlock: no reader, no writer holding or pending
+                 del == \/ rel[g] = "deleteunlock"
+                        \/ rel[g] = "deleterunlock" /\ (IF Repaired THEN tryLock ELSE TRUE)
              IN IF fatal
                 THEN /\ crashed' = TRUE /\ c' = CNext(c, [ev |-> "crash", what |-> "unlock of unlocked RWMutex"])
-                     /\ UNCHANGED <<items, w, r, pc, left>>
-                ELSE /\ IF o = 0 THEN UNCHANGED <<w, r>>
-                        ELSE IF wr THEN w' = [w EXCEPT ![o] = FALSE] /\ UNCHANGED r
-                        ELSE r' = [r EXCEPT ![o] = @ - 1] /\ UNCHANGED w
-                     /\ items' = IF rel[g] = "deleteunlock" \/ (rel[g] = "deleterunlock" /\ (~SafeDelR \/ o = 0 \/ (r[o] = 1 /\ ~w[o])))
-                                 THEN [items EXCEPT ![k] = 0] ELSE items
-                     /\ pc' = [pc EXCEPT ![g] = "idle"] /\ left' = [left EXCEPT ![g] = @ - 1]
-                     /\ c' = CNext(c, Ev("rel_ret", g)) /\ UNCHANGED crashed
+                     /\ UNCHANGED <<items, wm, w, r, pc, left>>
+                ELSE /\ IF o = 0 THEN UNCHANGED <<wm, w, r>>
+                        ELSE IF wr THEN w' = [w EXCEPT ![o] = FALSE] /\ wm' = [wm EXCEPT ![o] = 0] /\ UNCHANGED r
+                        ELSE r' = [r EXCEPT ![o] = @ - 1] /\ UNCHANGED <<w, wm>>
+                     /\ items' = IF del THEN [items EXCEPT ![k] = 0] ELSE items
+                     /\ pc' = [pc EXCEPT ![g] = "released"] /\ UNCHANGED <<left, c, crashed>>
           /\ UNCHANGED <<nextObj, key, mode, rel, my>>
-(* mutex.go:114-118 *)
+(* the release call returns; a waiter it let in may have returned (and been seen returning) before *)
+RelRet(g) == /\ pc[g] = "released" /\ pc' = [pc EXCEPT ![g] = "idle"] /\ left' = [left EXCEPT ![g] = @ - 1]
+             /\ c' = CNext(c, Ev("rel_ret", g))
+             /\ UNCHANGED <<items, nextObj, wm, w, r, key, mode, rel, my, crashed>>
+(* Delete *)
 Delete(k) == /\ PlainDelete /\ items[k] # 0 /\ items' = [items EXCEPT ![k] = 0]
-             /\ UNCHANGED <<nextObj, w, r, pc, key, mode, rel, my, left, crashed, c>>
+             /\ UNCHANGED <<nextObj, wm, w, r, pc, key, mode, rel, my, left, crashed, c>>
 
-Dead(g) == pc[g] = "have" /\ ~CanAcq(g)
+Dead(g) == \/ pc[g] = "have" /\ wm[my[g]] # 0
+           \/ pc[g] = "wwait" /\ r[my[g]] > 0
 Stuck == /\ \A g \in G : Dead(g) \/ (pc[g] = "idle" /\ left[g] = 0)
          /\ \E g \in G : Dead(g) /\ c' = CNext(c, Ev("stuck", g))
-         /\ UNCHANGED <<items, nextObj, w, r, pc, key, mode, rel, my, left, crashed>>
+         /\ UNCHANGED <<items, nextObj, wm, w, r, pc, key, mode, rel, my, left, crashed>>
 
 Rels(m) == IF m = "w" THEN WRels ELSE RRels
 Next == /\ ~crashed
         /\ \/ Stuck
            \/ \E k \in Keys : Delete(k)
-           \/ \E g \in G : \/ \E k \in Keys, m \in Modes : \E rl \in Rels(m) : Call(g, k, m, rl)
-                           \/ Look(g) \/ Create(g) \/ Acq(g) \/ Check(g) \/ Ret(g) \/ Exit(g) \/ Rel(g)
+           \/ \E g \in G : \/ \E k \in Keys, m \in Modes : Call(g, k, m)
+                           \/ \E rl \in Rels(mode[g]) : Exit(g, rl)
+                           \/ Look(g) \/ Create(g) \/ WEnter(g) \/ WAcq(g) \/ RAcq(g) \/ Check(g) \/ Ret(g) \/ Rel(g) \/ RelRet(g)
 Spec == Init /\ [][Next]_vars /\ WF_vars(Next)
 
 Contract == ~IsBad(c)
-(* whoever is between grant and release holds the object the key maps to (this is what F-C13-1 breaks) *)
+(* whoever is between grant and release holds the object the key maps to (this is what F-C13-1 broke) *)
 HoldsCurrent == \A g \in G : pc[g] \in {"ret", "in", "unl"} => items[key[g]] = my[g]
+(* the RWMutex bookkeeping: write-locked only by the owner of the inner mutex, never together with readers *)
+RWInv == \A o \in Objs : (w[o] => wm[o] # 0 /\ r[o] = 0) /\ r[o] >= 0
 AllFinish == <>(\A g \in G : pc[g] = "idle" /\ left[g] = 0)
 =============================================================================
